@@ -480,6 +480,24 @@ def c20(ctx):
             replay = {'whole_repository': whole, 'dirs': c.meta['dirs'], 'files': c.meta['files']}
             try:
                 c.tree.realise(b, None)
+                unlisted = None
+                if whole and r.random() < 0.3:
+                    # a category directory that profiles/categories does not name (an old category kept around, a local one): the generator
+                    # treats it as a plain directory; its packages carry the Manifests written for them earlier
+                    cats = sorted(d for d, ro in c.meta['roles'].items() if ro == 'category')
+                    catsfile = os.path.join(b, 'profiles', 'categories')
+                    pkgs_of = {d0: sorted(d for d, ro in c.meta['roles'].items() if ro == 'package' and d.startswith(d0 + '/')) for d0 in cats}
+                    cats = [d0 for d0 in cats if pkgs_of[d0]]
+                    if cats and os.path.exists(catsfile):
+                        unlisted = r.choice(cats)
+                        with open(catsfile, 'w') as f:
+                            f.write(''.join(x + '\n' for x in sorted(d for d, ro in c.meta['roles'].items() if ro == 'category') if x != unlisted))
+                        for pd in pkgs_of[unlisted]:
+                            rc0, err0 = run_script('gen_fast_manifest.py', [os.path.join(b, pd)])
+                            if rc0 != 0:
+                                ctx.violation('spec', f'the generator script failed on the package directory {pd} (exit {rc0}): {err0}', replay)
+                        replay['category_not_in_profiles_categories'] = unlisted
+                        st['unlisted_category'] = st.get('unlisted_category', 0) + 1
                 if whole:
                     rc, err = run_script('gen_fast_metamanifest.py', [b])
                     target = b
@@ -527,6 +545,10 @@ def c20(ctx):
                     ctx.violation('spec', f'the generated Manifests do not cover every file exactly once with true size and BLAKE2B/SHA512: {probs[:3]}', replay)
                 else:
                     st['exact'] += 1
+                if unlisted:
+                    # (the ebuild profile of the reference updater gives every category a Manifest of its own: "update finds nothing to change"
+                    # is not expected of such a tree)
+                    continue
                 # the model as reference verifier and updater, from the same state
                 if whole and r.random() < 0.5:
                     # directories covered by the default IGNORE entries appear after the generation
